@@ -223,11 +223,22 @@ def _tree_ops(a, b):
     return _tree_ops_(a, b, ev)
 
 
+def _special(f, a, b):
+    """special functions of two arguments are built on finite arguments only: besselj(-oo, 1) is not a value SymPy / mpmath can
+    evaluate (mpmath raises an empty ValueError from inside complex()), which says nothing about the collectors (seed sweep,
+    VERIF_SEED=10)"""
+    for v in (a, b):
+        v = sp.sympify(v)
+        if v.has(oo) or v.has(-oo) or v.has(nan) or v.has(sp.zoo):
+            raise ValueError("non-finite argument of a special function")
+    return f(a, b)
+
+
 def _tree_ops_(a, b, ev):
     return (lambda: sp.Add(a, b), lambda: sp.Mul(a, b), lambda: sp.Pow(a, b), lambda: sp.Min(a, b), lambda: sp.Max(a, b),
             lambda: sp.Abs(a), lambda: sp.sin(a), lambda: sp.Add(a, b, -a), lambda: sp.Add(a, -a, b), lambda: sp.exp(a),
             # functions of several arguments (a dimensional argument in a non-final position), and three-term sums / extrema
-            lambda: sp.atan2(a, b), lambda: sp.besselj(a, b), lambda: sp.Add(a, b, b, evaluate=ev), lambda: sp.Max(a, b, -b),
+            lambda: _special(sp.atan2, a, b), lambda: _special(sp.besselj, a, b), lambda: sp.Add(a, b, b, evaluate=ev), lambda: sp.Max(a, b, -b),
             lambda: sp.Add(b, a, a, evaluate=ev), lambda: sp.log(a, b))
 
 
